@@ -1160,3 +1160,60 @@ func chanIs(v ssa.Value, mk *ssa.MakeChan) bool {
 	}
 	return false
 }
+
+// completionCallsTestTheFunc: a completion callback travels as an interface value (AckMsg.OnComplete) that holds an
+// OnCompleteFunc - for every delivery the broker itself makes (publish(msg, nil)) a *typed nil* one: the interface is not
+// nil, the function is. Every call of an OnCompleteFunc value is therefore under a nil test of the function value
+// itself. A call guarded only by the interface's nil test or the type assertion panics for those entries - inside the
+// release loop that ends the connection, inside teardown the deferred recover swallows it and the rest of teardown
+// (subscriptions, will, session) is skipped.
+func (c *Ctx) completionCallsTestTheFunc() {
+	c.useRules(ruleP8)
+	n := 0
+	for _, fn := range c.P.Funcs {
+		if fn.Blocks == nil || fn.Pkg == nil || fn.Pkg.Pkg.Path() != pkgService {
+			continue
+		}
+		k := 0
+		for _, call := range ir.Calls(fn) {
+			if _, isGo := call.(*ssa.Go); isGo || !isCompletionCall(call) {
+				continue
+			}
+			n++
+			k++
+			v := call.Common().Value
+			tested := false
+			for b := call.Block(); b != nil && b.Idom() != nil; b = b.Idom() {
+				id := b.Idom()
+				iff, ok := id.Instrs[len(id.Instrs)-1].(*ssa.If)
+				if !ok {
+					continue
+				}
+				bo, ok := iff.Cond.(*ssa.BinOp)
+				if !ok || (bo.Op != token.NEQ && bo.Op != token.EQL) {
+					continue
+				}
+				for _, pr := range [][2]ssa.Value{{bo.X, bo.Y}, {bo.Y, bo.X}} {
+					kc, isK := pr[1].(*ssa.Const)
+					if !isK || !kc.IsNil() || namedName(pr[0].Type()) != "OnCompleteFunc" {
+						continue
+					}
+					if ir.SeeThrough(pr[0]) != ir.SeeThrough(v) {
+						continue
+					}
+					nonNil := id.Succs[0]
+					if bo.Op == token.EQL {
+						nonNil = id.Succs[1]
+					}
+					if nonNil == b || (len(nonNil.Preds) == 1 && nonNil.Dominates(b)) {
+						tested = true
+					}
+				}
+			}
+			c.R.Check(tested, ruleP8, fmt.Sprintf("%s:completion-call#%d:under-nil-test-of-the-function", fname(fn), k), c.P.InstrPos(call),
+				"the callback is called only when the function value is not nil",
+				"a completion callback is called without a nil test of the function value: the entries the broker registers for its own deliveries hold a typed nil OnCompleteFunc (the interface is not nil), so this call panics for them - in teardown the recover swallows the panic and what follows (removal of the subscriptions, the will, the session) never happens")
+		}
+	}
+	c.R.Count("calls of completion callbacks", n)
+}
